@@ -24,7 +24,10 @@ CFG = dict(
          "bidi stream) x probe unary call afterwards with and without deadline; callers abandoning with m = 0..4 (8) responses unread by "
          "cancel / deadline / just not reading (back-pressure by a live caller, released at the end) x others x probe; peers that send more than "
          "expected (replies to a unary call whose caller has gone, duplicate replies, bodies after the trailer, unread bodies then cancel, 1..4 "
-         "(8) extra) x probe; judged: client half against Model/Client.v, at the final quiescent point every call has returned, every unary "
+         "(8) extra) x probe; per-envelope write faults on the teardown paths: exactly the RST_STREAM Write of the abandoned stream is refused (or "
+         "blocks and fails at its own 30 s deadline), reads and later Writes work: cancel / deadline / abort on undecodable metadata x 0..3 unread x "
+         "2..5 further envelopes for the dead stream (bodies, trailer) x probe, against a scripted peer and end to end (handler never learns, keeps "
+         "sending) x others; judged: client half against Model/Client.v, at the final quiescent point every call has returned, every unary "
          "call got its answer (or its context's error), no registry lock is held; a wedge (probe pending / watchdog) is a failing input",
     assumptions=["payloads are opaque tokens; wires FIFO and lossless",
                  "quiescence = testing/synctest durable blocking; a goroutine blocked on sync.Mutex is detected by the real-time watchdog (600 ms without progress)"])
